@@ -47,6 +47,31 @@ fn mk(policy: usize, mode: usize, mty: usize, max_chunk: usize, len: usize, exac
            fill: Fill { len, a: 3, b: 7, m: if mty == 2 { 95 } else { 256 }, lo: if mty == 2 { 32 } else { 0 } }, exact, boundary: None, writer: false }
 }
 
+/// OpenSecureChannel messages whose filler length makes the padding the sender has to add land on the values where
+/// the padding bytes / extra padding byte change shape: 1..3, 254..259 (the second padding-size byte of keys longer
+/// than 2048 bits becomes non-zero at 256 + 2), a whole plain-text block.  The lengths are found by asking the real
+/// `SecureChannel::padding_size` for every filler length of one block cycle.
+fn opn_padding_cases(policy: usize, sid: usize, rid: usize) -> Vec<Case> {
+    let ns = nonce_for(policy, 11);
+    let nr = nonce_for(policy, 77);
+    let (sender, _) = channel_pair(policy, 2, sid, rid, true, 5, 9, &ns, &nr);
+    let hdr = sender.make_security_header(MessageChunkType::OpenSecureChannel);
+    let sig = ident(sid).cert.public_key().unwrap().size();
+    let pb = ident(rid).cert.public_key().unwrap().plain_text_block_size(POLICIES[policy].asymmetric_encryption_padding());
+    let base = message_bytes(&message(1, 2, &Fill { len: 0, a: 3, b: 7, m: 256, lo: 0 })).len();
+    let targets: Vec<usize> = vec![1, 2, 3, 254, 255, 256, 257, 258, 259, pb - 1, pb, pb + 1];
+    let mut v = Vec::new();
+    for len in 0..pb + 2 {
+        let (total, _) = sender.padding_size(&hdr, base + len, sig);
+        if targets.contains(&total) {
+            let mut c = mk(policy, 2, 1, 0, len, false);
+            c.sid = sid; c.rid = rid;
+            v.push(c);
+        }
+    }
+    v
+}
+
 /// identities whose key length the policy allows (quick: 2048 only)
 fn ids_for(policy: usize, tier_thorough: bool, r: &mut Rng) -> (usize, usize) {
     if !tier_thorough || policy == 0 { return if r.chance(1, 2) { (0, 1) } else { (1, 0) }; }
@@ -93,6 +118,10 @@ impl Property for P {
             c.writer = true;
             v.push(c);
         }
+        // OPN padding shapes: 2048-bit receiver (one padding-size byte) and 4096-bit receiver (two)
+        v.extend(opn_padding_cases(3, 0, 1));
+        v.extend(opn_padding_cases(3, 0, 4));
+        if tier == "thorough" { v.extend(opn_padding_cases(4, 5, 4)); v.extend(opn_padding_cases(5, 1, 5)); v.extend(opn_padding_cases(1, 2, 3)); }
         // empty filler; exactly one full chunk; one byte more
         v.push(mk(0, 0, 0, 8196, 0, true));
         // encoded message = exactly k full chunk bodies (and one byte either side): the last chunk is
